@@ -88,6 +88,9 @@ func vhSnapshotV(symKind, variant int) config.ClusterResources {
 			// advertisement 0 names no pool (= all pools); the others name two pools each
 			l.Spec.IPAddressPools = []string{pn[i], pn[(i+1)%3]}
 		}
+		if i == 1 {
+			l.Spec.Interfaces = append(l.Spec.Interfaces, "eth9", "eth5") // several interfaces, not sorted
+		}
 		r.L2Advs = append(r.L2Advs, l)
 	}
 	for i := 0; i < 3; i++ {
